@@ -627,6 +627,14 @@ func judge(c *cs, st *setter, v []byte, s seen) []verdict {
 	// narrow predicate: the response protocol string carries a SP (after CR/LF->SP neutralisation), which moves
 	// the peer's status-code token.
 	shift := c.protoVal != nil && bytes.ContainsAny(c.protoVal, " \r\n")
+	if shift {
+		// Lead's decision: the protocol string is not among the inputs the property statement lists
+		// (values, names, status message, method, request URI, host, user agent, content type, trailer
+		// names, proxy target). SetProtocol("HTTP/1.1 204") moving the peer's status-code token is observed
+		// and counted, not judged (judging it would demand more than the property states; upstream's own test
+		// TestResponseHeaderFirstLineSettersSanitizeNewlines pins the current first line).
+		return append(out, verdict{"", "observed_response_protocol_space_shifts_status"})
+	}
 	if c.chunked && c.anyProto != nil {
 		// The caller asked for another HTTP version (say HTTP/1.0) and for a body of unknown size: how a peer
 		// frames a chunked body under a version that has no chunked coding is a framing question (C03), not
